@@ -1,0 +1,33 @@
+//go:build verif
+
+package engine
+
+import (
+	"codeberg.org/TauCeti/mangle-go/ast"
+	"codeberg.org/TauCeti/mangle-go/factstore"
+)
+
+// VerifEvent describes one step of the semi-naive evaluation: which critical
+// section was just completed, the predicates of the stratum being evaluated,
+// and read-only views of the store and of the current delta.
+type VerifEvent struct {
+	Name    string
+	Stratum []ast.PredicateSym
+	Store   factstore.ReadOnlyFactStore
+	Delta   factstore.ReadOnlyFactStore
+}
+
+// VerifTracer, when set, is called synchronously at the end of each critical
+// section of the evaluation. It must not modify the stores.
+var VerifTracer func(VerifEvent)
+
+func verifEvent(name string, e *engine, delta factstore.ReadOnlyFactStore) {
+	if VerifTracer == nil {
+		return
+	}
+	var stratum []ast.PredicateSym
+	for sym := range e.programInfo.IdbPredicates {
+		stratum = append(stratum, sym)
+	}
+	VerifTracer(VerifEvent{Name: name, Stratum: stratum, Store: e.store, Delta: delta})
+}
